@@ -2,6 +2,7 @@ package main
 
 import (
 	"bytes"
+	"encoding/binary"
 	"fmt"
 	"math"
 	"os"
@@ -171,7 +172,7 @@ func runEpisode(sc *Scenario) *Result {
 		sim.SetSite(s, false, 0)
 	}
 	sim.SetSite(SStart, true, 1)
-	for _, st := range []simcore.Site{SEvalPre, SEvalPost, SLeafPre, SLeafPost} {
+	for _, st := range []simcore.Site{SEvalPre, SEvalPost, SLeafPre, SLeafPost, SAuto} {
 		sim.DupOK[st] = true
 	}
 	for name, mod := range sc.Sites {
@@ -321,7 +322,7 @@ func (ep *episode) judge() {
 		if !j.Returned {
 			set("no-return", fmt.Sprintf("job %d did not return", j.ID))
 		}
-		if sc.Prop == "C15" {
+		if sc.Prop == "C15" || sc.Prop == "C13" {
 			for _, n := range j.Notices {
 				res.Notices = append(res.Notices, Check{Class: n.Class, Msg: fmt.Sprintf("job %d: %s", j.ID, n.Msg)})
 			}
@@ -525,7 +526,7 @@ func (ep *episode) prepare(j *Job, jres *JobResult) (*jobRun, error) {
 		jr.state = sinkState{sink: j.Sink, ordered: true}
 		var s sdf.SDF3 = model
 		if j.EvalMod > 0 {
-			s = &ySDF3{inner: model, jid: jr.jid, setCtx: j.Leaves}
+			s = &ySDF3{inner: model, jid: jr.jid, setCtx: j.Leaves || ep.sim.SiteActive(SAuto)}
 		}
 		err := ep.bind3(jr, s, tap, faulty)
 		end := jr.end
@@ -563,7 +564,7 @@ func (ep *episode) prepare(j *Job, jres *JobResult) (*jobRun, error) {
 		jr.state = sinkState{sink: j.Sink, ordered: true}
 		var s sdf.SDF2 = model
 		if j.EvalMod > 0 {
-			s = &ySDF2{inner: model, jid: jr.jid, setCtx: j.Leaves}
+			s = &ySDF2{inner: model, jid: jr.jid, setCtx: j.Leaves || ep.sim.SiteActive(SAuto)}
 		}
 		err := ep.bind2(jr, s, tap, faulty)
 		end := jr.end
@@ -617,7 +618,14 @@ func (ep *episode) bind3(jr *jobRun, s sdf.SDF3, r render.Render3, faulty bool) 
 	case "tri":
 		jr.run = func() { jr.state.outTris = render.ToTriangles(s, r) }
 	case "stl":
-		jr.run = ep.withFault(j, jr, path, func() { render.ToSTL(s, path, r) })
+		jr.run = ep.withFault(j, jr, path, func() {
+			if ep.sc.Prop == "C13" && j.CoordSeed%3 == 0 {
+				if c := ep.loadForeignSTL(j.CoordSeed); !c.OK {
+					jr.res.Notices = append(jr.res.Notices, c)
+				}
+			}
+			render.ToSTL(s, path, r)
+		})
 	case "3mf":
 		jr.run = ep.withFault(j, jr, path, func() { render.To3MF(s, path, r) })
 	}
@@ -680,6 +688,38 @@ func (ep *episode) bind2(jr *jobRun, s sdf.SDF2, r render.Render2, faulty bool) 
 		}
 	}
 	return nil
+}
+
+// loadForeignSTL: history - the process has loaded someone else's binary STL
+// (arbitrary header text, non-zero attribute bytes such as colour STLs carry)
+// before it writes its own. Returns a check of that load.
+func (ep *episode) loadForeignSTL(seed uint64) Check {
+	r := simcore.NewRNG(seed)
+	n := 1 + r.Intn(40)
+	tris := genTriangles(n, "wild-small", r.Uint64())
+	var b bytes.Buffer
+	hdr := make([]byte, 80)
+	copy(hdr, "COLOR=\xff\x80\x40\xff foreign exporter "+strconv.FormatUint(r.Uint64(), 16))
+	b.Write(hdr)
+	binary.Write(&b, binary.LittleEndian, uint32(n))
+	for _, t := range tris {
+		nn := t.Normal()
+		for _, v := range []float64{nn.X, nn.Y, nn.Z, t[0].X, t[0].Y, t[0].Z, t[1].X, t[1].Y, t[1].Z, t[2].X, t[2].Y, t[2].Z} {
+			binary.Write(&b, binary.LittleEndian, float32(v))
+		}
+		binary.Write(&b, binary.LittleEndian, uint16(r.Uint64()|1)) // attribute bytes: never zero
+	}
+	p := filepath.Join(ep.dir, "foreign.stl")
+	if err := os.WriteFile(p, b.Bytes(), 0o644); err != nil {
+		return bad("harness", "write foreign stl: %v", err)
+	}
+	mesh, err := render.LoadSTL(p)
+	if err != nil {
+		return bad("stl-load", "LoadSTL of a valid binary STL with attribute bytes: %v", err)
+	}
+	c := compareLoaded(tris, mesh)
+	ep.probes["foreign-stl-loaded-first"]++
+	return c
 }
 
 // compareBatchSTL: the streaming writer produces the same bytes as the batch
